@@ -205,8 +205,15 @@ class GizaYamlDomain:
         pages it now generates, and its diagnostics."""
         prefix = get_giza_category(path)
         giza_category = self.yaml_mapping[prefix]
+        # Editor buffer text goes through the same constant substitution and merge-conflict
+        # scan as text read from disk, so that its diagnostics carry lines of the file too
+        reading_diagnostics: List[Diagnostic] = []
+        if optional_text is not None:
+            optional_text, reading_diagnostics = self.config.read(path, optional_text)
         artifacts, text, parse_diagnostics = giza_category.parse(path, optional_text)
-        giza_category.add(path, text, artifacts, parse_diagnostics)
+        giza_category.add(
+            path, text, artifacts, reading_diagnostics + parse_diagnostics
+        )
 
         file_id = path.name
         needs_rebuild = [file_id]
